@@ -2,13 +2,14 @@
    were handed, decided by the models of Model/Actors.v. *)
 From Coq Require Import List ZArith Bool Arith.
 Import ListNotations.
-From PT Require Export Model.Actors.
+From PT Require Export Gen.Gen_Actors Model.Actors.
 Open Scope Z_scope.
 
 Definition call := (move * Z * bool)%type.     (* move, delay in ms, accepted by the real hand engine on a copy of the state *)
 Inductive obs :=
 | OBot (b : bview) (v : option pview) (calls : list call) (autojoin : nat)
 | OPlayer (st : pstatus) (action_time : Z) (v : pview) (calls : list call)
+| OPlayerSeq (action_time : Z) (reqs : list (list revent * pview * list call))   (* one runner: status calls, then a request left to run its course, ... *)
 | OSuperseded (v : pview) (calls : list call)     (* a running player's wait, called off by a newer request before the thinking time was over *)
 | OObserver (system filtered : bool) (pre view : option ogame) (engine_same others_same : bool).
 Record case := { ac_bots_only : bool; ac_obs : list obs; ac_hands : nat; ac_settled : nat; ac_calls : nat; ac_refused : nat; ac_noted : bool }.
@@ -64,6 +65,36 @@ Definition ogame_eqb (a b : ogame) : bool :=
   Nat.eqb (length (og_deck a)) (length (og_deck b)) && Nat.eqb (length (og_burned a)) (length (og_burned b))
   && Bool.eqb (og_closed a) (og_closed b) && oplayers_eqb (og_players a) (og_players b).
 
+Definition player_diag (st : pstatus) (at_ : Z) (v : pview) (calls : list call) : list (nat * nat) :=
+      (* the most conservative action, as the property words it: pass when that is the only option, otherwise ready or check
+         if allowed, otherwise fold, otherwise the mandatory payment - and exactly that is submitted *)
+      (match c19_required v, calls with
+       | Some m, [(m', _, _)] => if move_eqb m m' then [] else [(4%nat, 5%nat)]
+       | Some _, [] => [(4%nat, 5%nat)]
+       | Some _, _ :: _ :: _ => [(4%nat, 6%nat)]       (* answered more than once: whatever the second submission is, nobody asked for it *)
+       | _, _ => []
+       end) ++
+      match player_move st at_ v, calls with
+      | None, [] => []
+      | Some (m, d), [(m', ms, accepted)] =>
+          (if move_eqb m m' then [] else [(2%nat, 4%nat)])
+          ++ (match m' with MvCall | MvBet _ | MvRaise _ | MvAllin => [(4%nat, 1%nat)] | _ => [] end)                (* volunteers chips *)
+          ++ (match m' with MvPay c => if amount_ok v m' then [] else [(4%nat, 2%nat)] | _ => [] end)                 (* pays something else than the posted size *)
+          ++ (if (d * 1000 <=? ms + 20) && (ms <=? d * 1000 + 450) then [] else [(4%nat, 3%nat)])                       (* too early / not at once *)
+      | None, _ :: _ => [(4%nat, 4%nat)]
+      | Some (m, d), _ =>
+          (* not exactly one call: something was submitted before the thinking time was over, or nothing at all *)
+          if existsb (fun c => match c with (_, ms, _) => ms + 20 <? d * 1000 end) calls then [(4%nat, 3%nat)] else [(2%nat, 4%nat)]
+      end.
+
+Fixpoint seq_diag (s : pstatus * nat) (at_ : Z) (reqs : list (list revent * pview * list call)) : list (nat * nat) :=
+  match reqs with
+  | [] => []
+  | (evs, v, calls) :: t =>
+      let s1 := fold_left rstep evs s in
+      player_diag (fst s1) at_ v calls ++ seq_diag (if arms_wait (fst s1) v then rstep s1 RTimeout else s1) at_ t
+  end.
+
 (* codes: 2 model/implementation differ; 3 C18; 4 C19; 5 C20; step = observation index * 10 + clause *)
 Definition obs_diag (o : obs) : list (nat * nat) :=
   match o with
@@ -82,33 +113,15 @@ Definition obs_diag (o : obs) : list (nat * nat) :=
           | _, _ => [(3%nat, 3%nat)]                                                       (* not exactly one action *)
           end
       end
-  | OPlayer st at_ v calls =>
-      (* the most conservative action, as the property words it: pass when that is the only option, otherwise ready or check
-         if allowed, otherwise fold, otherwise the mandatory payment - and exactly that is submitted *)
-      (match c19_required v, calls with
-       | Some m, [(m', _, _)] => if move_eqb m m' then [] else [(4%nat, 5%nat)]
-       | Some _, [] => [(4%nat, 5%nat)]
-       | _, _ => []
-       end) ++
-      match player_move st at_ v, calls with
-      | None, [] => []
-      | Some (m, d), [(m', ms, accepted)] =>
-          (if move_eqb m m' then [] else [(2%nat, 4%nat)])
-          ++ (match m' with MvCall | MvBet _ | MvRaise _ | MvAllin => [(4%nat, 1%nat)] | _ => [] end)                (* volunteers chips *)
-          ++ (match m' with MvPay c => if amount_ok v m' then [] else [(4%nat, 2%nat)] | _ => [] end)                 (* pays something else than the posted size *)
-          ++ (if (d * 1000 <=? ms + 20) && (ms <=? d * 1000 + 450) then [] else [(4%nat, 3%nat)])                       (* too early / not at once *)
-      | None, _ :: _ => [(4%nat, 4%nat)]
-      | Some (m, d), _ =>
-          (* not exactly one call: something was submitted before the thinking time was over, or nothing at all *)
-          if existsb (fun c => match c with (_, ms, _) => ms + 20 <? d * 1000 end) calls then [(4%nat, 3%nat)] else [(2%nat, 4%nat)]
-      end
+  | OPlayer st at_ v calls => player_diag st at_ v calls
+  | OPlayerSeq at_ reqs => seq_diag (PRunning, 0%nat) at_ reqs
   | OSuperseded v calls => match calls with [] => [] | _ => [(4%nat, 3%nat)] end      (* acted although the wait was called off *)
   | OObserver system filtered pre view same others =>
       (if same then [] else [(5%nat, 3%nat)])                                                                          (* the engine's own table changed *)
       ++ (if others then [] else [(5%nat, 4%nat)])                                                                     (* another actor's view was affected *)
       ++ match pre, view with
          | Some g, Some w =>
-             (match observer_view system filtered (Some g) with Some e => if ogame_eqb e w then [] else [(2%nat, 5%nat)] | None => [(2%nat, 5%nat)] end)
+             (match observer_view system (filtered || observer_filters_whenever_a_hand_is_attached) (Some g) with Some e => if ogame_eqb e w then [] else [(2%nat, 5%nat)] | None => [(2%nat, 5%nat)] end)
              ++ (if system || hides_private w then [] else [(5%nat, 1%nat)])                                           (* private cards shown *)
          | None, None => []
          | _, _ => [(2%nat, 5%nat)]
